@@ -50,8 +50,11 @@ import hashlib
 import itertools
 import json
 import linecache
+import os
 import random
+import subprocess
 import sys
+import tempfile
 from fractions import Fraction
 
 import gmpy2 as gmp
@@ -128,6 +131,56 @@ def gm(xs, k):
     xs[0] = xs[0] / k
     return xs
 ''',
+    # lists taken straight from every list-producing construct (range with 1/2/3 arguments, literal,
+    # comprehension, slice, zip, enumerate, empty, nested literal): wr/wl build them and overwrite slots
+    # *in FPy* (nothing outlives the call); rr/rl build the same lists afresh and return them
+    'lb': '''
+@fp.fpy
+def wr(v):
+    a = range(5)
+    a[0] = v
+    b = range(2, 6)
+    b[1] = v
+    c = range(0, 10, 2)
+    c[2] = v
+    return a[0] + b[1] + c[2]
+
+@fp.fpy
+def wl(v):
+    a = [1, 2, 3]
+    a[0] = v
+    b = [i * 2 for i in range(4)]
+    b[1] = v
+    base = [1, 2, 3, 4]
+    c = base[1:3]
+    c[0] = v
+    d = zip([1, 2], [3, 4])
+    d[0] = (v, v)
+    e = enumerate([5, 6])
+    e[1] = (v, v)
+    g = fp.empty(2)
+    g[0] = v
+    g[1] = v
+    n = [[1, 2], [3]]
+    n[0][0] = v
+    return a[0] + b[1] + c[0] + base[1] + g[1] + n[0][0]
+
+@fp.fpy
+def rr():
+    t = 0
+    for i in range(5):
+        t = t + i
+    return (range(5), range(2, 6), range(0, 10, 2), t)
+
+@fp.fpy
+def rl():
+    base = [1, 2, 3, 4]
+    g = fp.empty(2)
+    g[0] = 7
+    g[1] = 8
+    return ([1, 2, 3], [i * 2 for i in range(4)], base[1:3], zip([1, 2], [3, 4]), enumerate([5, 6]), g,
+            [[1, 2], [3]])
+''',
     # a list captured as a free variable: kw index-assigns into it, kr only reads it
     'k': '''
 K = [1.0, 2.0, 3.0]
@@ -155,7 +208,8 @@ def p(x, y):
 }
 FN_HOME = {'f': ('fgh', 'f'), 'g': ('fgh', 'g'), 'h': ('fgh', 'h'), 's': ('s', 's'), 'p': ('pq', 'p'),
            'q': ('pq', 'q'), 'fm': ('pq', 'fm'), 'gm': ('gm', 'gm'), 'kw': ('k', 'kw'), 'kr': ('k', 'kr'),
-           'f2': ('alt', 'f'), 'p2': ('alt', 'p')}
+           'f2': ('alt', 'f'), 'p2': ('alt', 'p'),
+           'wr': ('lb', 'wr'), 'wl': ('lb', 'wl'), 'rr': ('lb', 'rr'), 'rl': ('lb', 'rl')}
 
 CTX_MAKERS = {
     'A': lambda: fp.MPFloatContext(5, fp.RM.RTZ),
@@ -178,6 +232,10 @@ ARGS = {
     'kr': lambda: (1,),
     'f2': lambda: (3, 7),
     'p2': lambda: (3, 7),
+    'wr': lambda: (99,),
+    'wl': lambda: (99,),
+    'rr': lambda: (),
+    'rl': lambda: (),
 }
 
 TRANSFORMS = {
@@ -274,6 +332,7 @@ class World:
         gmp.set_context(gmp.context())
         self.mods = {}
         self.ctxs = {}
+        self.earlier = {}          # lists handed back by earlier calls in this world
         _WORLDS[0] += 1
         if _WORLDS[0] % 400 == 0:
             linecache.clearcache()
@@ -290,16 +349,40 @@ class World:
         return getattr(self.mods[mod], attr)
 
 
-def call_judged(fn, args, ctx):
-    """One call from Python: (observation, purity failures)."""
+def scribble(obj):
+    """What a Python caller may do with a value it was handed back: overwrite a slot of every list
+    reachable from it and grow it (the value is the caller's own)."""
+    if isinstance(obj, list):
+        for x in obj:
+            scribble(x)
+        if obj:
+            obj[0] = Float.from_float(-1.0)
+        obj.append(Float.from_float(-2.0))
+    elif isinstance(obj, tuple):
+        for x in obj:
+            scribble(x)
+
+
+def call_judged(fn, args, ctx, earlier=None, box=None):
+    """One call from Python: (observation, purity failures).  `earlier` is a dict {id: list object} of
+    the lists reachable from results of earlier calls (kept alive there, so ids are not reused); the
+    lists of this result are added to it.  `box`, if given, receives the result object."""
     fails = []
     before = snapshot(args)
     gbefore = gmp_state()
     try:
         res = fn(*args, ctx=ctx)
         obs = ('ok', canon(res))
-        if list_ids(res) & list_ids(args):
+        ids = list_ids(res)
+        if ids & list_ids(args):
             fails.append(('result-aliases-argument', 'a list reachable from the result is a list of the arguments'))
+        if earlier is not None:
+            if ids & set(earlier):
+                fails.append(('result-aliases-earlier-result',
+                              'a list reachable from the result is (identical to) a list handed back by an earlier call'))
+            _collect_lists(res, earlier)
+        if box is not None:
+            box.append(res)
     except Exception as e:
         obs = ('raise', type(e).__name__)
     if snapshot(args) != before:
@@ -308,6 +391,16 @@ def call_judged(fn, args, ctx):
     if gafter != gbefore:
         fails.append(('caller-mpfr-context', f'gmpy2 context of the calling thread {gbefore} -> {gafter}'))
     return obs, fails
+
+
+def _collect_lists(obj, into: dict):
+    if isinstance(obj, list):
+        into[id(obj)] = obj
+        for x in obj:
+            _collect_lists(x, into)
+    elif isinstance(obj, tuple):
+        for x in obj:
+            _collect_lists(x, into)
 
 
 # ---------------------------------------------------------------------------
@@ -322,14 +415,16 @@ def build_menu():
              'xf:simplify:f@A', 'xf:unroll:s@B', 'xf:inline:h@C',
              'ops:sqrt@A', 'ops:add@C', 'ops:round@B',
              'stoch', 'engines', 'gmp-caller',
-             'call:kw@-', 'call:kr@A']
+             'call:kw@-', 'call:kr@A',
+             'call:wr@-', 'call:wl@-', 'call:rr@-', 'call:rl@-', 'pymut:rr@-', 'pymut:rl@-', 'pymut:g@A']
     return menu
 
 
 # the sub-menu that is taken one level deeper (every kind of event, fewer contexts)
 CORE_MENU = ['call:f@A', 'call:f@B', 'call:f@-', 'call:g@C', 'call:h@A', 'call:h@-', 'call:f2@A',
              'call:s@B', 'xf:simplify:f@A', 'xf:unroll:s@B', 'xf:inline:h@C',
-             'ops:sqrt@A', 'stoch', 'gmp-caller', 'call:kw@-']
+             'ops:sqrt@A', 'stoch', 'gmp-caller', 'call:kw@-',
+             'call:wr@-', 'call:rr@-', 'pymut:rr@-']
 
 
 def do_event(w: World, ev: str):
@@ -337,7 +432,7 @@ def do_event(w: World, ev: str):
     kind, _, rest = ev.partition(':')
     if kind == 'call':
         name, _, c = rest.partition('@')
-        return call_judged(w.fn(name), ARGS[name](), w.ctx(c))
+        return call_judged(w.fn(name), ARGS[name](), w.ctx(c), w.earlier)
     if kind == 'xf':
         tname, _, rest2 = rest.partition(':')
         name, _, c = rest2.partition('@')
@@ -345,7 +440,16 @@ def do_event(w: World, ev: str):
             t = TRANSFORMS[tname](w.fn(name))
         except Exception as e:
             return ('xf-raise', type(e).__name__), []
-        return call_judged(t, ARGS[name](), w.ctx(c))
+        return call_judged(t, ARGS[name](), w.ctx(c), w.earlier)
+    if kind == 'pymut':
+        # call, then the Python caller edits the value it was handed back (its own value); the
+        # observation is the result as returned, before the edit
+        name, _, c = rest.partition('@')
+        box = []
+        obs, fails = call_judged(w.fn(name), ARGS[name](), w.ctx(c), w.earlier, box)
+        for res in box:
+            scribble(res)
+        return obs, fails
     if kind == 'ops':
         op, _, c = rest.partition('@')
         ctx = w.ctx(c)
@@ -443,6 +547,15 @@ ARG_PROGRAMS = {
     'arith': ('x', ['return x + 1']),
     'ctx-block': ('x', ['with fp.MPFloatContext(3, fp.RM.RTZ):', '    x[0] = x[0] + 1', 'return x']),
     'loop-mut': ('x', ['for i in range(len(x)):', '    x[i] = 0', 'return x']),
+    # results built by the list-producing constructs (the argument is ignored or only measured)
+    'ret-range1': ('x', ['return range(4)']),
+    'ret-range2': ('x', ['return range(1, 4)']),
+    'ret-range3': ('x', ['return (range(0, 6, 2), x)']),
+    'ret-literal': ('x', ['return ([1, 2], [[3], [x]])']),
+    'ret-comprehension': ('x', ['return [[i, x] for i in range(3)]']),
+    'ret-zip-enumerate': ('x', ['return (zip([1, 2], [3, 4]), enumerate([x, x]))']),
+    'ret-empty': ('x', ['e = fp.empty(2)', 'e[0] = x', 'e[1] = x', 'return e']),
+    'mut-range-ret': ('x', ['r = range(4)', 'r[0] = 9', 'return (r, range(4))']),
 }
 MUTATING = {'mut-ret', 'mut-inner-ret', 'mut-ret-other', 'mut-inner-ret-elem', 'rebind-mut', 'callee-mut',
             'alias-params', 'ctx-block', 'loop-mut'}
@@ -674,6 +787,8 @@ class Check(BaseCheck):
         self.free_runs = 100 if tier == 'quick' else 200
         self._seq = {}
         self._argmod = None
+        self._arg_earlier = {}
+        self._sc_state = {}
         # pristine observations: the one-event history on a fresh world, computed before anything else
         # runs in this process
         self.pristine = {}
@@ -720,15 +835,10 @@ class Check(BaseCheck):
         if len(outcomes) < 2 or bad[0] == 0:
             raise RuntimeError(f'vacuity canary: the racy harness body produced {len(outcomes)} outcome(s) over '
                                f'{stats.executions} schedules (bound 1) -- the scheduler does not interleave')
-        # the pristine table must itself be reproducible
-        again = {ev: do_event(World(), ev)[0] for ev in self.menu}
-        if again != self.pristine:
-            diff = [ev for ev in self.menu if again[ev] != self.pristine[ev]]
-            raise RuntimeError(f'pristine observations are not reproducible for {diff}')
 
     # ---- shards -----------------------------------------------------------
     def shards(self):
-        out = [('args', k, 2) for k in range(2)]
+        out = [('args', k, 2) for k in range(2)] + [('pristine',)]
         for si in range(len(self.spaces)):
             out += [('hist', si, k, self.hist_shards) for k in range(self.hist_shards)]
         if self.extra:
@@ -738,7 +848,7 @@ class Check(BaseCheck):
             out += [('sched', d, k, m) for k in range(m)]
         out += [('free', d) for d in self.drivers()]
         # expensive first (imap_unordered hands them out in order)
-        order = {'sched': 0, 'hist': 1, 'hist-extra': 2, 'free': 3, 'args': 4}
+        order = {'sched': 0, 'hist': 1, 'hist-extra': 2, 'free': 3, 'args': 4, 'pristine': 5}
         out.sort(key=lambda s: order[s[0]])
         return out
 
@@ -755,6 +865,8 @@ class Check(BaseCheck):
             self.run_sched(r, shard[1], shard[2], shard[3])
         elif kind == 'free':
             self.run_free(r, shard[1])
+        elif kind == 'pristine':
+            self.run_pristine(r)
         return r
 
     # ---- (1) argument isolation -----------------------------------------
@@ -775,7 +887,9 @@ class Check(BaseCheck):
         r.count('states')
         r.count('transitions')
         r.count('validated')
-        obs, fails = call_judged(fn, args, ctx)
+        earlier = self._arg_earlier           # lists handed back by every earlier call of this shard
+        box1 = []
+        obs, fails = call_judged(fn, args, ctx, earlier, box1)
         r.outcomes[f'args:{prog}:{obs[0]}'] += 1
         if obs[0] == 'ok' and (prog in MUTATING or (isinstance(obs[1], tuple))):
             r.count('nontrivial')
@@ -785,8 +899,15 @@ class Check(BaseCheck):
         # a second call with equal arguments observes the same (purity across calls)
         arg2 = STRUCTS[struct](L)
         args2 = (arg2, arg2) if prog == 'alias-params' else (arg2,)
-        obs2, _ = call_judged(fn, args2, ctx)
+        box2 = []
+        obs2, fails2 = call_judged(fn, args2, ctx, earlier, box2)
         r.count('transitions')
+        for k, text in fails2:
+            r.violate({'exploration': 'args', 'kind': k, 'program': prog},
+                      case, f'{prog}({struct} of {kind}) under ctx {cname}, second call: {k}: {text}; observed {obs2}')
+        if box1 and box2 and (box1[0] is box2[0]) and isinstance(box1[0], list):
+            r.violate({'exploration': 'args', 'kind': 'same-list-object-twice', 'program': prog},
+                      case, f'{prog}({struct} of {kind}) under ctx {cname}: two successive calls returned the same list object')
         if obs2 != obs:
             r.violate({'exploration': 'args', 'kind': 'second-call-differs', 'program': prog},
                       case, f'{prog}({struct} of {kind}) under ctx {cname}: first call {obs}, second call {obs2}')
@@ -804,7 +925,22 @@ class Check(BaseCheck):
                                 r.sample({'args-case': [struct, kind, prog, cname], 'observed': str(obs)})
                         i += 1
 
-    # ---- (2) histories -----------------------------------------------------
+    # ---- the pristine table itself: one-event histories evaluated a second time ----------
+    def pristine_again(self, events):
+        """The whole table is rebuilt in menu order (as in __init__), each event on a fresh World;
+        a table that differs from the first one is state surviving a fresh interpreter."""
+        again = {ev: do_event(World(), ev)[0] for ev in self.menu}
+        return [(ev, self.pristine[ev], again[ev]) for ev in events if again[ev] != self.pristine[ev]]
+
+    def run_pristine(self, r: ShardResult):
+        r.count('evaluations', len(self.menu))
+        r.count('transitions', len(self.menu))
+        for ev, first, second in self.pristine_again(self.menu):
+            r.violate({'exploration': 'histories', 'kind': 'pristine-not-reproducible', 'family': ev.split('@')[0]},
+                      {'kind': 'pristine', 'event': ev},
+                      f'event {ev} alone on a fresh interpreter: first {first}; after every menu event was run once '
+                      f'(each on its own fresh interpreter): {second}')
+
     def replay_history(self, h):
         w = World()
         obs = []
@@ -818,6 +954,40 @@ class Check(BaseCheck):
             for k, text in fs:
                 fails.append({'kind': k, 'index': i, 'event': ev, 'text': f'event #{i} {ev}: {text}'})
         return tuple(obs), fails
+
+    def _self_contained(self, r: ShardResult, h, sigkey) -> bool:
+        """A failing history is reported only if it fails *by itself*.  State that survives a fresh
+        World (process-wide caches of a broken tree) makes later, unrelated histories fail too; those
+        would not reproduce from a replay file.  Probe: every event of h alone on a fresh World must
+        still give its pristine observation -- then nothing leaked in from outside and h is
+        self-contained.  Otherwise h is re-run in a fresh process (a few times per failure class)."""
+        emitted, tried = self._sc_state.setdefault(sigkey, [0, 0])
+        if emitted >= 3:
+            return False
+        clean = all(do_event(World(), e)[0] == self.pristine[e] for e in dict.fromkeys(h))
+        if clean:
+            self._sc_state[sigkey][0] += 1
+            return True
+        r.count('hist_cross_world_state_seen')
+        if tried >= 4:
+            return False
+        self._sc_state[sigkey][1] += 1
+        fd, path = tempfile.mkstemp(prefix='vf_c18_', suffix='.json')
+        try:
+            with os.fdopen(fd, 'w') as fh:
+                json.dump({'case': {'kind': 'history', 'history': list(h)}, 'tier': self.tier, 'seed': self.seed}, fh)
+            p = subprocess.run([sys.executable, '-m', 'mc.run', 'C18', '--replay', path],
+                               cwd=os.path.dirname(os.path.dirname(os.path.dirname(os.path.abspath(__file__)))),
+                               capture_output=True, text=True, timeout=600)
+        finally:
+            try:
+                os.unlink(path)
+            except OSError:
+                pass
+        if p.returncode == 1:
+            self._sc_state[sigkey][0] += 1
+            return True
+        return False
 
     def _hist_visitor(self, r: ShardResult, seen: dict, sample_depth: int):
         sampled = [False]
@@ -836,6 +1006,9 @@ class Check(BaseCheck):
                 f = fails[0]
                 ev = f['event']
                 fam = ev.split('@')[0]          # event without its context: call:f, xf:simplify:f, ops:sqrt, stoch
+                if not self._self_contained(r, h, (f['kind'], fam)):
+                    r.count('hist_failures_not_emitted')   # over the per-class cap, or not failing by itself
+                    return
                 r.violate({'exploration': 'histories', 'kind': f['kind'], 'family': fam},
                           {'kind': 'history', 'history': list(h)},
                           f'history {list(h)}: ' + '; '.join(x['text'] for x in fails))
@@ -982,6 +1155,12 @@ class Check(BaseCheck):
             if r.violations:
                 return True, '\n'.join(v.detail for v in r.violations)
             return False, f'args case {case}: observed {obs}; arguments untouched, nothing shared'
+        if kind == 'pristine':
+            diff = self.pristine_again([case['event']])
+            if diff:
+                ev, first, second = diff[0]
+                return True, f'event {ev} alone on a fresh interpreter: first {first}; second time {second}'
+            return False, f'event {case["event"]}: same observation both times'
         if kind == 'history':
             h = tuple(case['history'])
             obs, fails = self.replay_history(h)
